@@ -168,6 +168,8 @@ def run(ctx):
              for y0 in few for y1 in few if y0 <= y1]
     jobs += [("point", (chunk, vals)) for chunk in core.split(rects, 32)]
     part = core.fan_out(ctx, _dispatch, jobs)
+    from .. import callforms              # pylint: disable=import-outside-toplevel
+    part.merge(callforms.explore("C18"))
     cnt = part.counters
     total = cnt.get("scalar_cases", 0) + cnt.get("point_cases", 0)
     coverage = {
@@ -192,6 +194,9 @@ def run(ctx):
 
 
 def replay(case):
+    if case.get("kind") == "callform":
+        from .. import callforms          # pylint: disable=import-outside-toplevel
+        return callforms.replay(case)
     if case["kind"] == "scalar":
         return [m for _c, m in check_scalar(*case["case"])]
     rect = (tuple(case["rect"][0]), tuple(case["rect"][1]))
